@@ -127,6 +127,21 @@ func runC09Mutual(run *Run, seed int64, cfg c09Cfg, variant string, rng *rand.Ra
 		return
 	}
 	seedMembers(c, H, cfg, rng)
+	if variant == "big-table" {
+		// the host knows several hundred members (large metadata): its state is tens of kilobytes, many packets' worth
+		pc := PacketCfg{Label: cfg.Label}
+		if cfg.EncVsn >= 0 {
+			pc.Key, pc.EncVsn = bytes.Repeat([]byte{0x9c}, 16), cfg.EncVsn
+		}
+		for i := 0; i < 420; i++ {
+			meta := bytes.Repeat([]byte{byte('a' + i%26)}, 40+i%200)
+			c.Net.Inject(H.EP, "10.8.0.9:7946", BuildPacket(pc, Enc(TAlive, &WAlive{Incarnation: uint32(1 + i%5), Node: fmt.Sprintf("big%03d", i), Addr: []byte{10, 8, byte(2 + i/250), byte(1 + i%250)}, Port: 7946, Meta: meta, Vsn: DefaultVsn()}), rng))
+			if i%50 == 49 {
+				Settle(time.Millisecond)
+			}
+		}
+		Settle(time.Millisecond)
+	}
 	vetoed := map[string]bool{}
 	if variant == "alive-veto" {
 		vetoed["m2"] = true
@@ -749,7 +764,7 @@ func TestC09(t *testing.T) {
 	k := 0
 	for rep := 0; rep < run.Pick(1, 10); rep++ {
 		for ci, cfg := range cfgs {
-			for _, variant := range []string{"plain", "alive-veto", "joiner-knows-newer-dead", "cidr"} {
+			for _, variant := range []string{"plain", "alive-veto", "joiner-knows-newer-dead", "cidr", "big-table"} {
 				if cfg.HostNoDelegate {
 					break // this configuration is for the cut enumeration only
 				}
